@@ -356,7 +356,8 @@ def main():
                 continue  # numba variants of a target have no JIT names
             cov["traces_validated_against_impl"] += 1
             if res[t]["module"] != base[t]["module"] or res[t]["objects"] != base[t]["objects"] or res[t].get("module_with_flags") != base[t].get("module_with_flags"):
-                cause = "hash-seed" if not r["history"] else ("history" if r["seed"] == 0 else "history+hash-seed")
+                # histories that change numpy's print options form a class of their own (text that goes through repr() of an array)
+                cause = "hash-seed" if not r["history"] else ("history:P" if "P" in r["history"] else "history" if r["seed"] == 0 else "history+hash-seed")
                 k = f"{PID}:stability:{t}:{cause}"
                 if k not in seen:
                     seen.add(k)
